@@ -94,12 +94,12 @@ class FieldGroup:
     @property
     def max_x_field(self):
         """np.array: max field in x"""
-        return np.max(self.x_fields)
+        return np.max(np.abs(self.x_fields))
 
     @property
     def max_y_field(self):
         """np.array: max field in y"""
-        return np.max(self.y_fields)
+        return np.max(np.abs(self.y_fields))
 
     @property
     def max_field(self):
